@@ -4,7 +4,7 @@
 #  - ./check Cxx against the patched tree -> caught / missed.  Keeps confirmed ones under /verif/seeded/Cxx-mN/.
 set -u
 PID="$1"; M="$2"; shift 2
-SRC="${SEED_ROOT:-/tmp/seed2}/$PID/out/$M"; TAG="${SEED_TAG:-r2}"
+SRC="${SEED_ROOT:-/tmp/seed3}/$PID/out/$M"; TAG="${SEED_TAG:-r3}"
 HERE="$(cd "$(dirname "${BASH_SOURCE[0]}")/.." && pwd)"
 [ -f "$SRC/patch.diff" ] || { echo "no patch in $SRC"; exit 3; }
 W="$(mktemp -d /tmp/seval.XXXXXX)"
